@@ -89,3 +89,25 @@ Print Assumptions C18_seq_update_spec.
 Print Assumptions C18_reachable_wshape.
 Print Assumptions C18_no_change_inside_removed_node.
 Print Assumptions C18_dropped_only_inside_removed_node.
+
+(* the edits computed for one file never overlap (Model/Edits.v): for every tree of nested displays / calls and every set of changes in which - as
+   without_obsolete_changes guarantees (C18_no_change_inside_removed_node) - a deleted or replaced node has no further change on it or below it, the
+   replacement ranges that apply_all produces (Replace ranges, and for every edited container the spans between consecutive kept elements) are well-formed
+   and pairwise disjoint: the assertion in SourceFile._check never fails.  The premises are executable predicates, evaluated on every real case. *)
+From V Require Model.Edits Proofs.EditsProofs.
+Theorem C18_edits_never_overlap :
+  forall (c : Edits.cset) (n : Edits.node), Edits.wfb n = true -> Edits.invb c n = true ->
+  Forall Edits.wfr (Edits.ranges c n) /\ Edits.Disj (Edits.ranges c n).
+Proof. exact EditsProofs.edits_never_overlap_b. Qed.
+Theorem C18_edits_example :
+  Edits.wfb EditsProofs.ex_tree = true /\ Edits.invb EditsProofs.ex_cset EditsProofs.ex_tree = true /\
+  Edits.sort_r (Edits.ranges EditsProofs.ex_cset EditsProofs.ex_tree) = [(1, 2); (2, 9); (11, 14); (25, 28)]%nat /\
+  Edits.pairwise_okb (Edits.sort_r (Edits.ranges EditsProofs.ex_cset EditsProofs.ex_tree)) = true.
+Proof. exact EditsProofs.edits_example. Qed.
+Print Assumptions C18_edits_never_overlap.
+Print Assumptions C18_edits_example.
+Theorem C18_check_never_fails :
+  forall (c : Edits.cset) (n : Edits.node), Edits.wfb n = true -> Edits.invb c n = true ->
+  Edits.pairwise_okb (Edits.sort_r (Edits.ranges c n)) = true.
+Proof. exact EditsProofs.check_never_fails. Qed.
+Print Assumptions C18_check_never_fails.
